@@ -10,6 +10,12 @@ mod util;
 mod e1;
 #[cfg(feature = "pm")]
 mod e1_store;
+#[cfg(not(feature = "stateless"))]
+mod e2;
+#[cfg(not(feature = "stateless"))]
+mod e2gen;
+#[cfg(not(feature = "stateless"))]
+mod proto;
 
 use serde_json::{json, Value};
 use std::cell::RefCell;
@@ -188,6 +194,8 @@ fn batch(args: &Args) -> i32 {
                         "e1" => run_e1(args, prop, run_seed, known, &dir, &mut local, want_logs),
                         #[cfg(feature = "pm")]
                         "e1store" => run_e1store(args, run_seed, known, &dir, &mut local, want_logs),
+                        #[cfg(not(feature = "stateless"))]
+                        "e2" => run_e2(args, prop, run_seed, known, &mut local, want_logs),
                         _ => {
                             local.harness_errors.push(format!("unknown engine {engine}"));
                             break;
@@ -369,6 +377,49 @@ fn run_e1store(args: &Args, run_seed: u64, known: &HashSet<String>, dir: &std::p
     }
 }
 
+#[cfg(not(feature = "stateless"))]
+fn run_e2(args: &Args, prop: &str, run_seed: u64, known: &HashSet<String>, local: &mut Agg, want_logs: bool) {
+    let thorough = args.get("tier") == Some("thorough");
+    let trace = e2gen::generate(prop, run_seed, thorough);
+    let mut ctx = e2::Ctx::new(prop, known);
+    let out = e2::run_trace(&trace, &mut ctx);
+    local.runs += 1;
+    local.steps += trace.steps.len() as u64;
+    ctx.counters.add("proofs_generated", ctx.proofs);
+    ctx.counters.add("oracle_evaluations", ctx.deliveries + ctx.counters.0.get("recover_calls").copied().unwrap_or(0));
+    local.counters.merge(&ctx.counters);
+    let d = trace.digest();
+    local.traces.insert(d);
+    if ctx.proofs > 0 || ctx.counters.0.get("recover_calls").copied().unwrap_or(0) > 0 || ctx.counters.0.get("prove_rejected").copied().unwrap_or(0) > 0 {
+        local.nontrivial.insert(d);
+    }
+    if want_logs {
+        local.logs.push((run_seed, ctx.log.0));
+    }
+    if local.samples.len() < 1 {
+        let mut t = trace.clone();
+        t.steps.truncate(6);
+        local.samples.push(t.to_json());
+    }
+    if let Some(e) = out.harness_error {
+        local.harness_errors.push(format!("seed {run_seed}: {e}"));
+    }
+    if let Some(v) = out.violation {
+        let class = v.class();
+        let (min, used) = e2::shrink(&trace, &class, known, args.u64("shrink-budget", 40) as usize);
+        let mut c2 = e2::Ctx::new(prop, known);
+        let v2 = e2::run_trace(&min, &mut c2).violation.unwrap_or(v.clone());
+        local.violations.push(json!({
+            "violation": v2.to_json(),
+            "original_violation": v.to_json(),
+            "trace": min.to_json(),
+            "original_steps": trace.steps.len(),
+            "shrink_runs": used,
+            "seed": run_seed.to_string(),
+        }));
+    }
+}
+
 fn run_one(args: &Args) -> i32 {
     let path = match args.get("trace") {
         Some(p) => p,
@@ -392,6 +443,19 @@ fn run_one(args: &Args) -> i32 {
             t.prop = prop.clone();
             let mut ctx = e1::Ctx::new(&prop, &known, &base);
             let out = e1::run_trace(&t, &mut ctx);
+            json!({
+                "violation": out.violation.map(|v| v.to_json()),
+                "harness_error": out.harness_error,
+                "log": ctx.log.0.to_string(),
+                "counters": ctx.counters.to_json(),
+            })
+        }
+        #[cfg(not(feature = "stateless"))]
+        "e2" => {
+            let mut t = e2::Trace::from_json(&tv).expect("e2 trace");
+            t.prop = prop.clone();
+            let mut ctx = e2::Ctx::new(&prop, &known);
+            let out = e2::run_trace(&t, &mut ctx);
             json!({
                 "violation": out.violation.map(|v| v.to_json()),
                 "harness_error": out.harness_error,
@@ -427,6 +491,12 @@ fn gen_one(args: &Args) -> i32 {
         "e1" => {
             let t = e1::generate(run_seed, &e1_gencfg(args, &prop));
             println!("{}", serde_json::to_string_pretty(&t.to_json()).unwrap());
+            0
+        }
+        #[cfg(not(feature = "stateless"))]
+        "e2" => {
+            let t = e2gen::generate(&prop, run_seed, args.get("tier") == Some("thorough"));
+            println!("{}", serde_json::to_string(&t.to_json()).unwrap());
             0
         }
         _ => 2,
